@@ -543,6 +543,26 @@ func checkC11(r *Result) {
 			r.broken("anchor deductUnbondingDelegation does not resolve")
 		}
 	}
+	// a jail term cannot be shed by re-creating the reporter: a reporter record is written afresh only for an address
+	// that holds no selection (every reporter selects itself), and a selection is removed only from a reporter over
+	// its cap, which the join guards never allow
+	if cr := P.Func("(x/reporter/keeper.msgServer).CreateReporter"); cr == nil {
+		r.broken("anchor CreateReporter does not resolve")
+	} else {
+		ps := AnalyzePaths(cr, []Atom{{Name: "hasSelection", Stable: true, Cond: func(rel *Term) (bool, bool) {
+			return rel.Op == "ext:0" && len(rel.Args) == 1 && strings.HasSuffix(rel.Args[0].Op, ".Has") && rel.Contains("Keeper.Selectors"), true
+		}}})
+		n := 0
+		for _, cs := range P.CallSitesIn(cr) {
+			if cs.Desc() == "coll:x/reporter/keeper.Keeper.Reporters.Set" {
+				n++
+				bad := ps.Require(cs.Instr, func(v map[string]bool) bool { return !v["hasSelection"] })
+				r.check(len(bad) == 0 && len(ps.Matched["hasSelection"]) > 0, "JAIL", "(x/reporter/keeper.msgServer).CreateReporter # a fresh (unjailed) reporter record is written only for an address without a selection", P.Pos(cs.Pos()), fmt.Sprintf("valuations: %v", statesStr(ps, cs.Instr)))
+			}
+		}
+		r.check(n == 1, "JAIL", "(x/reporter/keeper.msgServer).CreateReporter # one write of the reporter record", P.Pos(cr.Pos()), fmt.Sprint(n))
+	}
+	checkRemoveOnlyOverCap(r, "JAIL", "a reporter's self-selection (which blocks re-creating it while jailed) is removed only from a reporter over its cap")
 	r.minCount("CHASE-WALK", 2)
 	r.minCount("LIN-SLASH", 5)
 	r.minCount("ONCE-SLASH", 6)
